@@ -95,7 +95,7 @@ def probe_norm(inp: Dict[str, Any]) -> Dict[str, Any]:
         hi = dyn._hop_integral.numpy()
     bad = []
     z = inp["dt"] / inp["nsub"] * (np.abs(D0.numpy()).max() + np.abs(D1.numpy()).max()) / 2 * n
-    bound = inp["nsub"] * (z ** 6 / 72 + z ** 8 / 576) * 50 + 1e-13
+    bound = 20.0 * inp["nsub"] * z ** 5 + 1e-13  # 4th-order scheme, non-autonomous coefficients: local norm defect O(h^5)
     if defects[0] > bound:
         bad.append(f"norm defect {defects[0]:.3e} exceeds the RK4 bound {bound:.2e} (z={z:.3f})")
     if defects[0] > 1e-10 and defects[1] > defects[0] / 8.0:
@@ -324,7 +324,8 @@ def corr_hop(ctx: Ctx, drv):
         dyn = _dyn(1, 2)
         ok = dyn._rescale_velocity_along_nac({(0, 1): torch.as_tensor(d.copy())}, 0, 1, mol, dE, mol_index=0)
         v2 = mol.velocities.numpy().reshape(-1)
-        toks = ["hop_rescale", f2b(CONSTANTS.KINETIC_ENERGY_SCALE), f2b(dE), natom] + [f2b(t) for t in v.reshape(-1)] + [f2b(t) for t in d.reshape(-1)] + [f2b(t) for t in minv.reshape(-1)]
+        # live code = repaired sign rule (model op hop_rescale_fixed; hop_rescale keeps the pre-repair torch.sign formula as regression evidence)
+        toks = ["hop_rescale_fixed", natom, f2b(CONSTANTS.KINETIC_ENERGY_SCALE), f2b(dE)] + [f2b(t) for t in v.reshape(-1)] + [f2b(t) for t in d.reshape(-1)] + [f2b(t) for t in minv.reshape(-1)]
         out = drv.ask(*toks)
         good = len(out) == 1 + 3 * natom and int(out[0]) == int(bool(ok)) and all(abs(b2f(o) - w) <= 1e-13 * max(1e-6, abs(w)) for o, w in zip(out[1:], v2))
         ctx.corr_case("_rescale_velocity_along_nac", {"natom": natom, "mode": mode, "dE": dE}, out[:4], [int(bool(ok))] + v2[:3].tolist(), good, stratum=mode + ("/down" if dE < 0 else "/up"))
